@@ -92,7 +92,11 @@ func (g *FnGen) execCall(s *State, ins ssa.Instruction, com *ssa.CallCommon, res
 	}
 	fc, ct := g.c.calleeContract(g, com)
 	if fc != nil && fc.Iterates != nil {
-		g.execIterCall(s, ins, com, res, fc, ct)
+		var iargs []TVal
+		for _, a := range com.Args {
+			iargs = append(iargs, TVal{term: g.term(s, a), ty: Ty{sort: g.c.reg.sortOf(a.Type()), gt: a.Type()}})
+		}
+		g.execIterCall(s, ins, res, fc, ct, iargs, com.Args)
 		return
 	}
 	var args []TVal
@@ -546,15 +550,19 @@ func (g *FnGen) execAppend(s *State, com *ssa.CallCommon, res ssa.Value) {
 
 // boundInvoke: an interface method call whose interface is bound (`bind I => T`)
 // uses T's method contract; the dynamic type is checked as a precondition.
-func (g *FnGen) boundInvoke(s *State, com *ssa.CallCommon, res ssa.Value) bool {
+// resolveBound: the concrete method (and its contract) an interface call is bound to by a `bind` declaration.
+func (g *FnGen) resolveBound(com *ssa.CallCommon) (*FuncContract, *ssa.Function, types.Type, bool) {
+	if !com.IsInvoke() {
+		return nil, nil, nil, false
+	}
 	it := types.Unalias(com.Value.Type())
 	ct, ok := g.c.binds[types.TypeString(it, nil)]
 	if !ok {
-		return false
+		return nil, nil, nil, false
 	}
 	key0 := g.c.ifaceKey(it, com.Method.Name())
 	if g.c.contracts[key0] != nil {
-		return false // an explicit interface contract wins
+		return nil, nil, nil, false // an explicit interface contract wins
 	}
 	sel := g.c.prog.MethodSets.MethodSet(ct).Lookup(com.Method.Pkg(), com.Method.Name())
 	if sel == nil {
@@ -564,11 +572,19 @@ func (g *FnGen) boundInvoke(s *State, com *ssa.CallCommon, res ssa.Value) bool {
 		panic(genErr("bind: %s has no method %s", ct, com.Method.Name()))
 	}
 	fn := g.c.prog.MethodValue(sel)
-	key := g.c.fnKey(fn)
-	fc := g.c.contracts[key]
+	fc := g.c.contracts[g.c.fnKey(fn)]
 	if fc == nil {
-		panic(genErr("%s: call to %s (through interface %s) has no contract", g.fn.Name(), key, it))
+		panic(genErr("%s: call to %s (through interface %s) has no contract", g.fn.Name(), g.c.fnKey(fn), it))
 	}
+	return fc, fn, ct, true
+}
+
+func (g *FnGen) boundInvoke(s *State, com *ssa.CallCommon, res ssa.Value) bool {
+	fc, fn, ct, ok := g.resolveBound(com)
+	if !ok {
+		return false
+	}
+	key := g.c.fnKey(fn)
 	recv := g.term(s, com.Value)
 	g.addObl(s, "requires", fmt.Sprintf("requires@%s[dyntype#%d]", shortKey(key), g.seqN), "dynamic type of the receiver is "+ct.String(), g.posOf(),
 		eq(app("i-tid", recv), intLit(int64(g.c.typeID(ct)))))
@@ -598,6 +614,10 @@ func (g *FnGen) boundInvoke(s *State, com *ssa.CallCommon, res ssa.Value) bool {
 		args = append(args, TVal{term: g.term(s, a), ty: Ty{sort: g.c.reg.sortOf(a.Type()), gt: a.Type()}})
 	}
 	g.boundCallees[key] = true
+	if fc.Iterates != nil {
+		g.execIterCall(s, g.curInstr, res, fc, tgt, args, com.Args)
+		return true
+	}
 	g.applyContract(s, fc, tgt, args, res, fn.Signature.Results())
 	return true
 }
